@@ -176,8 +176,9 @@ Definition rf_reorg (d : disk) (rf : rfilter) : option (list wr) * rfilter :=
     else (Some [], {| rf_from := rf_from rf; rf_cols := col_clear cur (rf_cols rf); rf_next := cur; rf_err := false |}).
 
 (* fillRunningEventFilter: insert the header blooms of [from, from+cnt); a missing header or an
-   out-of-range insert is an initialisation error (sticky). Roll-over writes during a fill go straight
-   to the database; they re-write windows that are already persisted and are not modelled. *)
+   out-of-range insert is an initialisation error (sticky). When a fill reaches a window end the full
+   window is written STRAIGHT to the database (one direct Put per window): rf_fill_w collects these
+   writes. *)
 Fixpoint rf_fill (d : disk) (rf : rfilter) (from : N) (cnt : nat) : rfilter :=
   match cnt with
   | O => rf
@@ -194,6 +195,23 @@ Fixpoint rf_fill (d : disk) (rf : rfilter) (from : N) (cnt : nat) : rfilter :=
 
 Definition rf_fill_range (d : disk) (rf : rfilter) (from to : N) : rfilter :=
   rf_fill d rf from (N.to_nat (to + 1 - from)).
+
+Fixpoint rf_fill_w (d : disk) (rf : rfilter) (from : N) (cnt : nat) : list wr :=
+  match cnt with
+  | O => []
+  | S c =>
+      match header d from with
+      | None => []
+      | Some hb =>
+          match rf_insert rf from (b_bloom hb) with
+          | None => []
+          | Some (ws, rf') => ws ++ rf_fill_w d rf' (from + 1) c
+          end
+      end
+  end.
+
+Definition rf_fill_range_w (d : disk) (rf : rfilter) (from to : N) : list wr :=
+  rf_fill_w d rf from (N.to_nat (to + 1 - from)).
 
 (* rebuildRunningEventFilter (pruner version; with nothing pruned it coincides with core's): walk back
    from the head's window to the nearest persisted window, bounded by the retention floor's window. *)
@@ -214,6 +232,13 @@ Definition rf_rebuild (d : disk) (latest : N) : rfilter :=
   | None => rf_fill_range d (rf_new (align fl) fl) fl latest
   end.
 
+Definition rf_rebuild_w (d : disk) (latest : N) : list wr :=
+  let fl := floor0 d in
+  match find_anchor d (align fl) (align latest) (N.to_nat (align latest / W)) with
+  | Some a => rf_fill_range_w d (rf_new (a + W) (a + W)) (a + W) latest
+  | None => rf_fill_range_w d (rf_new (align fl) fl) fl latest
+  end.
+
 (* InitializeRunningEventFilter: what a fresh process computes from the disk *)
 Definition reinit (d : disk) : rfilter :=
   match d_height d with
@@ -230,6 +255,25 @@ Definition reinit (d : disk) : rfilter :=
       end
   end.
 
+(* ... and the direct writes that initialisation performs (each one its own commit) *)
+Definition reinit_w (d : disk) : list wr :=
+  match d_height d with
+  | None => []
+  | Some latest =>
+      match d_snap d with
+      | Some s =>
+          if rf_next s =? latest + 1 then []
+          else if (rf_next s <=? latest) && (latest <=? rf_to s)
+          then let nx := N.max (rf_next s) (floor0 d) in
+               rf_fill_range_w d {| rf_from := rf_from s; rf_cols := rf_cols s; rf_next := nx; rf_err := false |} nx latest
+          else rf_rebuild_w d latest
+      | None => rf_rebuild_w d latest
+      end
+  end.
+
+(* the filter of a process whose initialisation failed: every later use returns the init error *)
+Definition rf_dead : rfilter := {| rf_from := 0; rf_cols := []; rf_next := 0; rf_err := true |}.
+
 (* ---------- operations ---------- *)
 Inductive op :=
 | Store (b : block)
@@ -237,7 +281,8 @@ Inductive op :=
 | Prune (e : N)               (* pruner.PruneUpto(e) with a batch rotated after every block *)
 | SetL1 (h : N)
 | Snapshot                    (* WriteRunningEventFilter *)
-| Restart (graceful : bool).  (* graceful: snapshot first; both: memory := reinit disk *)
+| Restart (graceful : bool).  (* graceful: snapshot first; both: memory := reinit disk, plus the direct
+                                 writes of the initialisation *)
 
 (* verifyBlockSuccession *)
 Definition succession_ok (d : disk) (b : block) : bool :=
@@ -328,17 +373,27 @@ Definition plan (o : op) (d : disk) (m : rfilter) : list batch * rfilter :=
   | Prune e => (prune_plan d e, m)
   | SetL1 h => ([[WL1 h]], m)
   | Snapshot => (if rf_err m then [] else [[WSnap m]], m)
-  | Restart g => (if g && negb (rf_err m) then [[WSnap m]] else [], m)
+  | Restart g =>
+      let bs0 := if g && negb (rf_err m) then [[WSnap m]] else [] in
+      let d1 := apply_batches d bs0 in
+      (bs0 ++ map (fun w => [w]) (reinit_w d1), reinit d1)
   end.
-
-(* memory after the operation's batches were attempted *)
-Definition after_mem (o : op) (d' : disk) (m' : rfilter) : rfilter :=
-  match o with Restart _ => reinit d' | _ => m' end.
 
 Definition step (st : disk * rfilter) (o : op) : disk * rfilter :=
   let (bs, m') := plan o (fst st) (snd st) in
-  let d' := apply_batches (fst st) bs in
-  (d', after_mem o d' m').
+  (apply_batches (fst st) bs, m').
+
+(* the commit with index k of operation o fails *)
+Definition fault_op (o : op) (k : nat) (d : disk) (m : rfilter) : disk * rfilter :=
+  let (bs, m') := plan o d m in
+  let d' := apply_batches d (firstn k bs) in
+  match o with
+  | Restart g =>
+      if (g && negb (rf_err m)) && Nat.eqb k 0
+      then step (d, m) (Restart false)   (* the snapshot write fails at shutdown; restart on the old disk *)
+      else (d', rf_dead)                 (* a write of the initialisation fails: sticky init error *)
+  | _ => (d', m')                        (* memory KEPT as the closure left it *)
+  end.
 
 Definition run (ops : list op) (st : disk * rfilter) : disk * rfilter := fold_left step ops st.
 
@@ -363,10 +418,9 @@ Fixpoint exec_fault (ops : list op) (k : nat) (st : disk * rfilter) : disk * rfi
   match ops with
   | [] => st
   | o :: r =>
-      let (bs, m') := plan o (fst st) (snd st) in
+      let bs := fst (plan o (fst st) (snd st)) in
       if Nat.leb (length bs) k then exec_fault r (k - length bs) (step st o)
-      else let d' := apply_batches (fst st) (firstn k bs) in
-           run r (d', after_mem o d' m')
+      else run r (fault_op o k (fst st) (snd st))
   end.
 
 (* ---------- the property predicates (evaluated by the harness on decoded images) ---------- *)
@@ -494,8 +548,8 @@ Definition covers (d : disk) (rf : rfilter) : bool :=
                   end)
           (filter (fun hb => floor0 d <=? b_num hb) (d_fam d FHeader)).
 
-(* a fresh process *)
-Definition index_covers (d : disk) : bool := covers d (reinit d).
+(* a fresh process: its initialisation may first re-write windows *)
+Definition index_covers (d : disk) : bool := covers (apply_batch d (reinit_w d)) (reinit d).
 
 (* memory vs disk *)
 Definition rf_equiv (a b : rfilter) : bool :=
